@@ -337,7 +337,9 @@ type c08SackCase struct {
 	MaxTTL  int
 }
 
-func c08RunSack(t *testing.T, c c08SackCase) (elapsed time.Duration, err error, accepted int) {
+func c08RunSack(t *testing.T, c c08SackCase) (elapsed time.Duration, err error, accepted int, firstProbeAt time.Duration) {
+	firstProbeAt = -1
+	var runStart time.Time
 	loop := netip.MustParseAddr("127.0.0.1")
 	ln, lerr := net.Listen("tcp4", "127.0.0.1:0")
 	if lerr != nil {
@@ -409,6 +411,9 @@ func c08RunSack(t *testing.T, c c08SackCase) (elapsed time.Duration, err error, 
 			}
 			snk.OnWrite = func(p bwPacket) {
 				h := bwParse(p.Data)
+				if h.OK && h.Proto == 6 && h.Flags == 0x18 && firstProbeAt < 0 {
+					firstProbeAt = time.Since(runStart) // the engine has started: its sender's first probe
+				}
 				if !h.OK || h.Proto != 6 || h.Flags != 0x18 || !c.Reply {
 					return
 				}
@@ -424,6 +429,7 @@ func c08RunSack(t *testing.T, c c08SackCase) (elapsed time.Duration, err error, 
 		params := traceroute.TracerouteParams{Hostname: "127.0.0.1", Protocol: "tcp", MinTTL: 1, MaxTTL: c.MaxTTL, Delay: 1,
 			Timeout: c.Timeout, TCPMethod: traceroute.TCPMethod("sack")}
 		start := time.Now()
+		runStart = start
 		// watchdog: a wrapper that does not return is unblocked by a fatal read error on its source
 		wd := time.AfterFunc(3*(2*c.Timeout+time.Duration(c.MaxTTL)*10*time.Millisecond+time.Second)+10*time.Second, func() {
 			w.mu.Lock()
@@ -459,7 +465,7 @@ func c08RunSack(t *testing.T, c c08SackCase) (elapsed time.Duration, err error, 
 
 func c08Sack(t *testing.T, rep *hx.Report, orc *hx.Oracle, thorough bool) {
 	var cases []c08SackCase
-	for _, to := range []time.Duration{300 * time.Millisecond, 3 * time.Second} {
+	for _, to := range []time.Duration{100 * time.Millisecond, 300 * time.Millisecond, 3 * time.Second} {
 		for _, max := range []int{3, 30} {
 			for _, flood := range []bool{false, true} {
 				cases = append(cases,
@@ -482,7 +488,7 @@ func c08Sack(t *testing.T, rep *hx.Report, orc *hx.Oracle, thorough bool) {
 	}
 	for i, c := range cases {
 		b, _ := c08ParseBounds(answers[i])
-		el, rerr, acc := c08RunSack(t, c)
+		el, rerr, acc, firstProbeAt := c08RunSack(t, c)
 		// Spec.sackBound with D = HandshakeTimeout (= timeout), H = the 500 ms handshake read deadline
 		bound := c.Timeout + 500*time.Millisecond + b.Par
 		sample := map[string]any{"stream": "sack", "case": c.Name, "flood": c.Flood, "timeout": c.Timeout.String(), "max_ttl": c.MaxTTL,
@@ -495,6 +501,15 @@ func c08Sack(t *testing.T, rep *hx.Report, orc *hx.Oracle, thorough bool) {
 			rep.Violate(hx.Violation{Kind: "spec", What: fmt.Sprintf("SACK traceroute (%s) returned after %s, bound %s", c.Name, el, bound),
 				Sig: map[string]string{"site": "sack", "behaviour": "exceeds-bound", "case": c.Name}, Replay: sample})
 		}
+		// the engine phase on its own: from the sender's first probe (the engine has started, the
+		// handshake is over) the run must end within the parallel engine's bound — time the handshake
+		// did not use is not the engine's to spend
+		if firstProbeAt >= 0 && el-firstProbeAt > b.Par {
+			sample["first_probe_at"], sample["engine_bound"] = firstProbeAt.String(), b.Par.String()
+			rep.Violate(hx.Violation{Kind: "spec", What: fmt.Sprintf("SACK traceroute (%s): the engine started at %s and the run returned at %s, %s later — the parallel engine's bound is %s", c.Name, firstProbeAt, el, el-firstProbeAt, b.Par),
+				Sig: map[string]string{"site": "sack", "behaviour": "engine-phase-exceeds-bound", "case": c.Name}, Replay: sample})
+		}
+		rep.Hit(fmt.Sprintf("sack:engine-started=%v", firstProbeAt >= 0))
 		if c.Name == "synack-never-captured" && (rerr == nil || el > 500*time.Millisecond+time.Millisecond) {
 			rep.Violate(hx.Violation{Kind: "spec", What: fmt.Sprintf("handshake read did not give up at its 500 ms deadline (elapsed %s, err %v)", el, rerr),
 				Sig: map[string]string{"site": "sack", "behaviour": "handshake-read", "case": c.Name}, Replay: sample})
